@@ -623,6 +623,8 @@ public:
                 v_temp.resize(nof_vertices, nof_groups);
                 initialization::init_tensor_rows_random(v_list, v_temp, random_generator);
             }
+            // u_temp may hold the caller's matrix or an earlier realization (see the swap below)
+            u_temp.resize(nof_vertices, nof_groups);
             initialization::init_tensor_rows_random(u_list, u_temp, random_generator);
 #ifdef MULTITENSOR_VERIF
             if (verif::observer())
